@@ -156,6 +156,9 @@ Qed.
 
 (* headers allocated at their exact initial size (the code before fix 9ee6197): create a, create b,
    attribute on a -- the rewritten header of a runs into b's data extent *)
+Fixpoint all_ok_pre (s : state) (h : list op) : bool :=
+  match h with [] => true | o :: r => snd (step s o) && all_ok_pre (fst (step s o)) r end.
+
 Definition hist_exact : list op := [OpMkContig 0 1 false 12 1 8; OpMkContig 0 1 false 12 1 16].
 Lemma C04_refuted_exact_size_headers_l :
   let s := run (init cfg_exact_hdr 2) hist_exact in let o := OpAttrSet 1 None 43 true in
@@ -174,6 +177,23 @@ Lemma C04_refuted_exact_size_link_headers_l :
   exists e' w, In e' (exts (st s)) /\ targets s o (owner e') (kind_of e') = false /\
                In w (wlog (st (fst (step s o)))) /\ ~ (fst w + snd w <= start e' \/ ext_end e' <= fst w).
 Proof. intros s o. split; [vm_compute; reflexivity|]. apply frame_b_false. vm_compute. reflexivity. Qed.
+
+(* dense group headers allocated at their exact size (/repo before 18bfe7a): dataset a, dense group d with one link,
+   dataset b, first hard link to d -- the header of d with its new reference-count message runs into b's data extent *)
+Definition hist_dense_group : list op := [OpMkContig 0 1 false 12 1 8; OpMkDense 0 1 false 1 true; OpMkContig 0 1 false 12 1 16].
+Lemma C04_refuted_exact_size_dense_group_header_l :
+  let s := run (init cfg_exact_dense 2) hist_dense_group in let o := OpHardLink 0 1 false 2 in
+  all_ok_pre (init cfg_exact_dense 2) hist_dense_group = true /\ snd (step s o) = true /\
+  exists e' w, In e' (exts (st s)) /\ targets s o (owner e') (kind_of e') = false /\
+               In w (wlog (st (fst (step s o)))) /\ ~ (fst w + snd w <= start e' \/ ext_end e' <= fst w).
+Proof. intros s o. split; [vm_compute; reflexivity|]. split; [vm_compute; reflexivity|]. apply frame_b_false. vm_compute. reflexivity. Qed.
+
+(* the same history and call with the reservation of 18bfe7a: nothing outside the targets is touched *)
+Lemma C04_dense_group_header_reserved_l :
+  let s := run (init cfg_fixed 2) hist_dense_group in let o := OpHardLink 0 1 false 2 in
+  snd (step s o) = true /\ frame_b s o = true /\
+  find_ext (exts (st s)) 2 KHeader = Some (mkExt 531033 max_hdr 2 KHeader).
+Proof. intros s o. vm_compute. repeat split; reflexivity. Qed.
 
 Lemma no_overlap_b_complete : forall l, NoOverlap l -> no_overlap_b l = true.
 Proof.
@@ -224,15 +244,20 @@ Lemma C16_hardlink_residue_l :
 Proof. intros s o. vm_compute. repeat split; reflexivity. Qed.
 
 (* with both patches in, the only failing calls that can leave bytes behind are a contiguous creation whose
-   header does not fit one chunk (its data block is allocated first) and a chunked write with an empty chunk *)
+   header does not fit one chunk (its data block is allocated first), a chunked write with an empty chunk
+   (fixed-size or variable-length elements), and CreateDenseGroup (it has no link pre-check: it looks the parent
+   up and links after everything was written) *)
 Lemma C16_patched_failing_calls_l : forall o,
   may_leave_bytes true true o = true ->
-  (exists p nl dup ldt rank dsize, o = OpMkContig p nl dup ldt rank dsize) \/ (exists x sizes, o = OpWrite x sizes).
+  (exists p nl dup ldt rank dsize, o = OpMkContig p nl dup ldt rank dsize) \/ (exists x sizes, o = OpWrite x sizes) \/
+  (exists x lens sizes, o = OpWriteVL x lens sizes) \/ (exists p nl dup n fit, o = OpMkDense p nl dup n fit).
 Proof.
   intros o H. destruct o; cbn in H; try discriminate.
   - left. repeat eexists.
-  - right. repeat eexists.
+  - right. left. repeat eexists.
   - destruct idx; discriminate.
+  - right. right. right. repeat eexists.
+  - right. right. left. repeat eexists.
 Qed.
 
 (* a dataset whose header leaves no room for the attribute info message (rank 10, resizable): without the
@@ -285,3 +310,54 @@ Example quiet_session_exists :
   let s := reach true true 2 hist_sess1 in
   all_quiet s (OpReopen :: [OpReject; OpAttrDel 1 None] ++ [OpClose]).
 Proof. intros s. vm_compute. repeat split; reflexivity. Qed.
+
+(* ------------------------------------------------------------------ the paths added later: dense groups, variable-length data *)
+
+Lemma kind_eq_dec : forall a b : kind, {a = b} + {a <> b}.
+Proof. decide equality. apply N.eq_dec. Qed.
+Lemma e_eq_dec : forall a b : extent, {a = b} + {a <> b}.
+Proof. decide equality; try apply N.eq_dec. apply kind_eq_dec. Qed.
+
+(* the lazy flush of a global heap collection (at roll-over, at Close) is one write of exactly the collection's extent:
+   the size recorded by createNewHeap is the size it allocated *)
+Lemma C05_gcol_flush_within_extent_l : forall bp ba sb h o w,
+  let s := reach bp ba sb h in let s' := fst (step s o) in
+  ovf (st s') = false -> In w (wlog (st s')) ->
+  forall e, In e (exts (st s')) -> is_gcol (kind_of e) = true -> start e <= fst w -> fst w < ext_end e ->
+  fst w + snd w <= ext_end e.
+Proof.
+  intros bp ba sb h o w s s' Hov Hw e Hin Hk H1 H2.
+  destruct (C04_writes_within_owned_l bp ba sb h o Hov w Hw) as (e0 & Hin0 & A & B & _). fold s s' in Hin0.
+  destruct (e_eq_dec e0 e) as [->|Hne]; [exact B|].
+  pose proof (step_ok bp ba s o (reach_ok bp ba sb h)) as Hs'. fold s' in Hs'.
+  destruct (ok_ext _ _ _ Hs' Hov) as [_ HN].
+  destruct (NoOverlap_In _ _ _ HN Hin0 Hin Hne) as [D|D]; unfold ext_end in *.
+  - assert (snd w = 0 \/ 0 < snd w) as [Z|Z] by lia; lia.
+  - lia.
+Qed.
+
+(* a variable-length history: two datasets share the file's heap writer; the second write rolls the first collection
+   over (flush of an extent allocated by an earlier call), Close flushes the last one *)
+Definition hist_vlen : list op :=
+  [OpMkContig 0 1 false 32 1 32; OpMkContig 0 1 false 32 1 16;
+   OpWriteVL 1 [3000; 0] []; OpWriteVL 2 [2000] []; OpClose].
+Example hist_vlen_runs :
+  all_ok_pre (init cfg_fixed 2) hist_vlen = true /\
+  (let s := reach true true 2 (firstn 3 hist_vlen) in
+   gh s = Some (4096, 1048) /\ wlog (st (fst (step s (OpWriteVL 2 [2000] [])))) = [(2489, 16); (2767, 4096)] /\
+   frame_b s (OpWriteVL 2 [2000] []) = true) /\
+  (let s := reach true true 2 (firstn 4 hist_vlen) in
+   gh s = Some (4096, 2064) /\ wlog (st (fst (step s OpClose))) = [(0, 48); (6863, 4096)] /\ frame_b s OpClose = true) /\
+  store_ok_b (st (reach true true 2 hist_vlen)) = true.
+Proof. vm_compute. repeat split; reflexivity. Qed.
+
+(* dense groups: created with 1 and with 12 links, hard link to one of them, a refused duplicate leaves its
+   five extents behind (no pre-check on this path) *)
+Definition hist_dg : list op :=
+  [OpMkContig 0 1 false 12 1 8; OpMkDense 0 2 false 1 true; OpMkDense 0 2 false 12 true; OpHardLink 0 3 false 2].
+Example hist_dg_runs :
+  all_ok_pre (init cfg_fixed 2) hist_dg = true /\ store_ok_b (st (reach true true 2 hist_dg)) = true /\
+  (let s := reach true true 2 hist_dg in let o := OpMkDense 0 2 true 1 true in
+   snd (step s o) = false /\ List.length (exts (st (fst (step s o)))) = (List.length (exts (st s)) + 5)%nat /\
+   objs (fst (step s o)) = objs s /\ ovf (st (fst (step s o))) = false).
+Proof. vm_compute. repeat split; reflexivity. Qed.
